@@ -17,7 +17,10 @@ SUB2 = [Opt('int', b'z', 0, 1), Opt('strl', b'w', 0, None)]
 SUB = [Opt('int', b'a', 0, 1), Opt('intl', b'l', 0, b'{5}'), Opt('sec', b'in', F['MULTI'] | F['TITLE'], None, SUB2),
        Opt('func', b'g', func='user:1')]
 SCHEMA = [Opt('int', b'i', 0, 7), Opt('str', b's', 0, b'd'), Opt('intl', b'il', 0, b'{1,2}'), Opt('sec', b'sec', 0, None, SUB),
-          Opt('sec', b'm', F['MULTI'], None, SUB), Opt('bool', b'b', 0, 0), Opt('func', b'fn', func='user:0')]
+          Opt('sec', b'm', F['MULTI'], None, SUB), Opt('bool', b'b', 0, 0), Opt('func', b'fn', func='user:0'),
+          # a deprecated option (its notice is a diagnostic of the base text too), a dropped one, a free-form section
+          Opt('int', b'old', F['DEPRECATED'], 1), Opt('intl', b'gone', F['DEPRECATED'] | F['DROP'], b'{1}'),
+          Opt('sec', b'kv', F['KEYSTRVAL'], None, [Opt('int', b'lvl', 0, 2)])]
 
 
 def unknown_item(r, depth):
@@ -56,7 +59,9 @@ def base_items(r, schema, depth):
     out = []
     for _ in range(1 + r.below(4)):
         o = r.pick(schema)
-        if o.kind == 'sec':
+        if o.kind == 'sec' and o.flags & F['KEYSTRVAL']:
+            out.append((o.name + b' {', [r.pick([b'lvl = 5', b'k1 = v', b'k2 = "w w"']) for _ in range(r.below(3))], b'}'))
+        elif o.kind == 'sec':
             title = b' ' + r.pick([b'x', b'y', b'"z z"']) if o.flags & F['TITLE'] else b''
             out.append((o.name + title + b' {', base_items(r, o.sub, depth + 1) if depth < 2 else [], b'}'))
         elif o.kind == 'func':
@@ -89,6 +94,17 @@ def render(items, insert_at=None, what=None, counter=None):
     return b'\n'.join(p for p in parts if p != b'')
 
 
+def kv_boundaries(items, inside=False, acc=None):
+    """for every boundary (numbered as render does): does it lie inside a free-form section?"""
+    acc = acc if acc is not None else []
+    for it in items:
+        acc.append(inside)
+        if isinstance(it, tuple):
+            kv_boundaries(it[1], inside or it[0].startswith(b'kv '), acc)
+    acc.append(inside)
+    return acc
+
+
 def count_boundaries(items):
     c = [0]
     render(items, None, None, c)
@@ -107,6 +123,8 @@ def generate(rng, tier):
     for _ in range(60 if tier == 'quick' else 1500):
         items = base_items(r, SCHEMA, 0)
         nb = count_boundaries(items)
+        inkv = kv_boundaries(items)
+        assert len(inkv) == nb
         base = render(items)
         for k in range(nb):
             if tier == 'quick' and nb > 4 and r.chance(1, 2):
@@ -116,7 +134,7 @@ def generate(rng, tier):
             ntok = len(re.findall(rb'\S+', u))
             n += 1
             yield scenario('u%d' % n, base, mod, F['IGNORE_UNKNOWN'], 'ignore/boundary', ntok)
-            if k % 3 == 0:
+            if k % 3 == 0 and not inkv[k]:      # inside a free-form section `unk = v` is a key, not an undeclared item
                 n += 1
                 yield scenario('n%d' % n, base, mod, 0, 'noflag', ntok)
     # fixed shapes named in the property, and the depth soak
@@ -129,13 +147,21 @@ def generate(rng, tier):
     for s in shapes:
         for base, mk in ((b'i = 1\ns = "x"', lambda u: b'i = 1\n' + u + b'\ns = "x"'), (b'sec { a = 2 l = {3} }', lambda u: b'sec { a = 2\n' + u + b'\nl = {3} }'),
                          (b'b = true', lambda u: u + b'\nb = true'), (b'b = true', lambda u: b'b = true\n' + u),
-                         (b'fn(z)\nsec { g(w) }', lambda u: u + b'\nfn(z)\nsec { ' + u + b' g(w) }')):
+                         (b'fn(z)\nsec { g(w) }', lambda u: u + b'\nfn(z)\nsec { ' + u + b' g(w) }'),
+                         (b'old = 3\ni = 2', lambda u: b'old = 3\n' + u + b'\ni = 2'), (b'gone = {4}', lambda u: b'gone = {4}\n' + u),
+                         (b'kv { k1 = v lvl = 4 }', lambda u: b'kv { k1 = v\n' + u + b'\nlvl = 4 }')):
             n += 1
             yield scenario('s%d' % n, base, mk(s), F['IGNORE_UNKNOWN'], 'ignore/shape', 3 if len(s) < 1000 else 10 ** 4)
 
 
 def nontrivial(scn, il):
     return scn.meta['ntok'] >= 3
+
+
+def dg(l):
+    """the diagnostics without their line numbers (an inserted item moves the lines of what follows)"""
+    m = re.search(r'diags=\[([^\]]*)\]', l)
+    return re.sub(r',\d+,', ',', m.group(1)) if m else '?'
 
 
 def cbs(l):
@@ -154,8 +180,8 @@ def oracle(scn, il):
     if scn.meta['flags'] & F['IGNORE_UNKNOWN']:
         if 'rc=0 ' not in mod:
             out.append(('not-skipped', '%s: text with an unknown item rejected: %s\n%s' % (scn.id, mod[:200], scn.lines[-3][:300])))
-        elif 'diags=[]' not in mod:
-            out.append(('diagnostic', '%s: skipping produced a diagnostic: %s' % (scn.id, mod[:200])))
+        elif dg(mod) != dg(base):
+            out.append(('diagnostic', '%s: skipping produced a diagnostic: %s (base text alone: %s)' % (scn.id, dg(mod), dg(base))))
         elif cbs(base) != cbs(mod):
             out.append(('changed-calls', '%s: the unknown item changed the calls of declared functions: %s vs %s' % (scn.id, cbs(base), cbs(mod))))
         elif d0[5:] != d1[5:]:
